@@ -108,12 +108,14 @@ def _txn(rng, g, nkeys, nvals, mapping, focus=None):
             v = rng.randrange(nvals)
             out.append(rng.choice([["set", k, v], ["set", k, v], ["del", k],
                                    ["setdefault", k, v], ["pop", k],
+                                   ["popd", k, v], ["popitem"],
+                                   ["insert", k, v],
                                    ["update", [[k, v], [(k + 1) % nkeys, v]],
                                     "list"]]))
         else:
             k = rng.randrange(nkeys)
             out.append(rng.choice([["add", k], ["add", k], ["remove", k],
-                                   ["discard", k],
+                                   ["discard", k], ["spop"], ["sinsert", k],
                                    ["supdate", [k, (k + 1) % nkeys],
                                     "list"]]))
     if not mapping and rng.random() < 0.12:
@@ -346,8 +348,15 @@ def _run_txn(conn, tree, concrete, dom, cfg, ctx, who, shadow=None):
         name = op[0]
         before = ops.listing(tree, mapping) if small else None
         path = None
-        if name in WRITES and name not in ("update", "supdate", "popitem",
-                                           "spop"):
+        if name in ("popitem", "spop"):
+            # they remove the smallest key: the leftmost descent
+            try:
+                if len(tree):
+                    path = walker.descent_path(tree, tree.minKey(), dom)
+            except Exception:
+                path = None
+        elif name in WRITES and name not in ("update", "supdate") and \
+                name not in INPLACE:
             try:
                 path = walker.descent_path(tree, dom.key(op[1]), dom)
             except Exception:
